@@ -27,7 +27,8 @@ class ValuesGet(SymVal):
 
 def export_world():
     w = World()
-    w.builtin_models[set] = lambda it, xs=(): set(it.iterate(xs))
+    from pyvc.interp import LocalSet
+    w.builtin_models[set] = lambda it, xs=(): LocalSet(it.iterate(xs))
     w.builtin_models[str] = lambda it, x='': x if isinstance(x, str) else str(x)
     def hook(it, what, args):
         if what == ('contains',):
@@ -79,6 +80,9 @@ def having_obligations(ctx):
                     if name == '_get_predicate_data_part':
                         from pyvc.interp import BoundSource
                         return BoundSource(source.of_function(fn3), fn3, BaseModel.Frame, s)
+                    from pyvc.interp import private_helper
+                    ok_, v_ = private_helper(it, BaseModel.Frame, name, s)
+                    if ok_: return v_
                     raise Outside(name)
             try:
                 prs = explore(lambda path: (lambda it: it.iterate(it.call_source(fi2, fn2, BaseModel.Frame, [FrameM(), 'P'], {})))(Interp(path, world)))
@@ -221,6 +225,9 @@ def get_data_obligation(ctx):
             if n == 'frames': return s.frames
             if n == 'R': return s.R
             if n == 'Meta': return Holder(modal=s.modal)
+            from pyvc.interp import private_helper
+            ok_, v_ = private_helper(it, BaseModel, n, s)
+            if ok_: return v_
             raise Outside(f'Model.{n}')
     bad = None; und = None
     for order in ([0], [0, 1, 2], [2, 0, 1], [1, 3, 0, 2], [3, 2, 1, 0]):
